@@ -569,7 +569,7 @@ func GenV(t *rapid.T, ty T, depth int, o Options) V {
 		// A nil pointer to a type whose value-receiver methods (Error, String, HTML, …) the renderer
 		// calls makes the Go runtime panic inside the embedder's own method; Scriggo passes panics
 		// of native code to the host by design, so such values are outside every show property.
-		hasMethods := ty.Elem.K == "lib" && ty.Elem.Lib != "MyString" && ty.Elem.Lib != "MyInt" && ty.Elem.Lib != "MyFloat" && ty.Elem.Lib != "MyBool" && ty.Elem.Lib != "Inner" && ty.Elem.Lib != "Outer" && ty.Elem.Lib != "Tagged"
+		hasMethods := ty.Elem.K == "time" || ty.Elem.K == "lib" && ty.Elem.Lib != "MyString" && ty.Elem.Lib != "MyInt" && ty.Elem.Lib != "MyFloat" && ty.Elem.Lib != "MyBool" && ty.Elem.Lib != "Inner" && ty.Elem.Lib != "Outer" && ty.Elem.Lib != "Tagged"
 		if !hasMethods && rapid.IntRange(0, 3).Draw(t, "nilp") == 0 {
 			return V{Nil: true}
 		}
